@@ -228,9 +228,9 @@ type SCaseRaw struct {
 	Eps   JF      `json:"eps"`
 }
 
-func genSCase(r *Rng, w *CaseWriter) {
-	t := []string{"real64", "real32"}[r.Intn(2)]
-	d := sPairs[r.Intn(len(sPairs))]
+func genSCase(r *Rng, w *CaseWriter, k int) {
+	t := []string{"real64", "real32"}[k%2]
+	d := sPairs[(k/2)%len(sPairs)]
 	order, n := r.Intn(3), r.Intn(3)
 	if order > 0 && n == 0 && r.Intn(3) > 0 {
 		n = 1 + r.Intn(2)
@@ -445,13 +445,9 @@ func coqVOp(sparse bool, o VOp) string {
 func genVCase(r *Rng, w *CaseWriter, k int) {
 	t := typeNames[k%len(typeNames)]
 	sparse := r.Intn(3) > 0
-	var d vPairDef
-	for {
-		d = vPairs[r.Intn(len(vPairs))]
-		if d.G == "Set" && !sparse && !isReal(t) {
-			continue // only the dense vectors of magic scalars have SET
-		}
-		break
+	d := vPairs[(k/len(typeNames))%len(vPairs)]
+	if d.G == "Set" && !sparse && !isReal(t) {
+		sparse = true // only the dense vectors of magic scalars have SET
 	}
 	n := r.Range(0, 6)
 	if r.Intn(4) > 0 && n == 0 {
@@ -493,9 +489,9 @@ func genVCase(r *Rng, w *CaseWriter, k int) {
 				l[j] = []int64{1, -1, 2, -2, 1, 0}[r.Intn(6)]
 			}
 		}
-		if div && i == 1 {
+		if div && i <= 1 {
 			for j := range l {
-				l[j] *= 2 // exact float quotients for the divisors 1, -1, 2, -2
+				l[j] *= 6 // exact float quotients for the divisors 1, -1, 2, -2, 3
 			}
 		}
 		if d.Eq && i == 1 && r.Bool() && len(contents) > 0 && len(contents[0]) == len(l) {
@@ -641,18 +637,18 @@ const hdr = "From Coq Require Import ZArith List Bool Floats. Import ListNotatio
 const rule = "S: magic-scalar pairs (Real64/Real32; NEG..LOGSUB, SET, predicates): receiver/operands/temporary with Order 0..2, N 0..2 (occasional Order/N mismatch), values from a pool with +-0, +-Inf, NaN, tiny/huge, receiver = operand and operand = operand aliasing in 1 of 5 slots; non-trivial iff Order >= 1 and N >= 1. V: vector pairs (VaddV..VdivS, Equals, Set) on sparse (2 of 3) and dense vectors of all nine element types, n in 0..6 (1 in 16 with a dimension mismatch), zero patterns all-zero/leading/trailing/interleaved/full/single/random, explicitly stored zeros through At(i).SetFloat64(0) (1 in 4 absent positions, 1 in 10 stored ones), divisors 1,-1,2,-2,3,0, operands aliasing the receiver or each other in 1 of 5 slots; non-trivial iff n >= 2 and (explicit stored zero or dense or aliased). distinct = distinct (family, type, pair, operand specification)"
 
 func emitCases(o Opts) {
-	per := 60
+	per := 110
 	w := NewCaseWriter(o.Out, "cases", hdr, "mism", per)
 	w.Type = "case"
 	w.Rule = rule
 	rng := NewRng(o.Seed)
-	nS := 25 * o.N / 10
-	nV := 4 * o.N
+	nS := 7 * o.N
+	nV := 24 * o.N
 	for _, c := range corpusCases() {
 		c(w)
 	}
 	for k := 0; k < nS; k++ {
-		genSCase(rng.Split(), w)
+		genSCase(rng.Split(), w, k)
 	}
 	for k := 0; k < nV; k++ {
 		genVCase(rng.Split(), w, k)
